@@ -19,7 +19,7 @@
    new_var(lits, vals) can then be left with an empty domain): that is sat_core's conflict handling, property C07.
    Non-vacuity: ex_ov_run (a history with three variables, a singleton, equalities in both orders, assume/pop), ov_init_wf. *)
 From Coq Require Import List Bool Arith Permutation.
-From ORatio Require Import smt.SatEnc smt.Ov proofs.SatEnc_Proofs proofs.Ov_Proofs.
+From ORatio Require Import smt.SatEnc smt.Ov smt.SatKeys proofs.SatEnc_Proofs proofs.Ov_Proofs proofs.SatKeys_Proofs.
 Import ListNotations.
 
 (* a variable created with a domain takes exactly one of its allowed values in every model; every allowed value is possible *)
@@ -109,3 +109,13 @@ Print Assumptions C14_histories.
 Theorem C14_iteration_instance : iteration id_dom id_set.
 Proof. exact iteration_instance. Qed.
 Print Assumptions C14_iteration_instance.
+
+(* ---- the printed cache key of ov_theory::new_eq, "=e<left>e<right>": equal keys => the same ordered pair ---- *)
+Theorem C14_eq_key_injective : forall l r l' r', str_ov_key l r = str_ov_key l' r' -> l = l' /\ r = r'.
+Proof. exact str_ov_key_inj. Qed.
+Print Assumptions C14_eq_key_injective.
+
+(* exprs.find(s_expr) on the printed keys is the model's lookup by ordered pair *)
+Theorem C14_lookup_by_printed_key : forall l r m, oexpr_find_str (str_ov_key l r) m = oexpr_find m l r.
+Proof. exact oexpr_find_str_spec. Qed.
+Print Assumptions C14_lookup_by_printed_key.
